@@ -10,6 +10,7 @@ Two parts, both engine M:
    `utf16_len == UTF-16 length of the text` is preserved, so entries appear in non-decreasing order.
 """
 import json
+import re
 import os
 import time
 import z3
@@ -34,8 +35,24 @@ def out_layout():
     return idx
 
 
-def ostr(u8, u16, marks=()):
-    return Agg('OutString', None, {0: u8, 1: u16, 2: tuple(marks)})
+def u8_of(cv):
+    return cv[0] + 2 * cv[1] + 3 * cv[2] + 4 * cv[3]
+
+
+def u16_of(cv):
+    return cv[0] + cv[1] + cv[2] + 2 * cv[3]
+
+
+def ostr(cv, marks=()):
+    """output text abstracted to the number of scalar values of each UTF-8 width (1..4 bytes): every length-like measure
+    (bytes, UTF-16 units, scalars, ASCII-ness, lead / continuation byte counts) is a function of this vector"""
+    cv = tuple(cv)
+    return Agg('OutString', None, {0: u8_of(cv), 1: u16_of(cv), 2: tuple(marks), 3: cv})
+
+
+# byte classes of well-formed UTF-8: (name, lo, hi, how many such bytes a text with class vector cv has)
+BYTE_CLASSES = [('ascii', 0x00, 0x7F, lambda cv: cv[0]), ('lead2', 0xC2, 0xDF, lambda cv: cv[1]), ('lead3', 0xE0, 0xEF, lambda cv: cv[2]),
+                ('lead4', 0xF0, 0xF4, lambda cv: cv[3]), ('cont', 0x80, 0xBF, lambda cv: cv[1] + 2 * cv[2] + 3 * cv[3])]
 
 
 def column_contracts():
@@ -47,18 +64,22 @@ def column_contracts():
             return f
         return deco
 
-    def append(exe, path, ref, l8, l16):
+    def append(exe, path, ref, l8, l16=None):
         s = exe.load(path, ref)
         if not (isinstance(s, Agg) and s.name == 'OutString'):
             raise MirUnsupported('append to %r' % (s,))
-        exe.store_at(path, ref.key, ref.proj, ostr(s.fields[0] + l8, s.fields[1] + l16, s.fields[2]))
+        exe.store_at(path, ref.key, ref.proj, ostr([a + b for a, b in zip(s.fields[3], l8)], s.fields[2]))
 
     def fresh_len(exe, path, hint):
+        """class vector of an arbitrary appended text; returns (vector, its UTF-16 length)"""
         n = path.env.get('nlen', 0) + 1
         path.env['nlen'] = n
-        l8, l16 = z3.Int('%s_len8_%d' % (hint, n)), z3.Int('%s_len16_%d' % (hint, n))
-        path.pc.append(z3.And(l16 >= 0, l16 <= l8, l8 <= 3 * l16, l8 <= 2**20))
-        return l8, l16
+        cv = tuple(z3.Int('%s_w%d_%d' % (hint, k + 1, n)) for k in range(4))
+        path.pc.append(z3.And([c >= 0 for c in cv] + [u8_of(cv) <= 2**20]))
+        return cv, u16_of(cv)
+
+    def ascii_vec(n):
+        return (z3.IntVal(n), z3.IntVal(0), z3.IntVal(0), z3.IntVal(0))
 
     @reg(r"^Arguments::<'_>::from_str$")
     def args_from_str(exe, path, callee, args, dst_ty):
@@ -72,7 +93,7 @@ def column_contracts():
             p = exe.deref_all(path, p)
             if isinstance(p, z3.ExprRef) and z3.is_string_value(p) and all(ord(ch) < 128 for ch in p.as_string()):
                 n = len(p.as_string())
-                append(exe, path, args[0], z3.IntVal(n), z3.IntVal(n))
+                append(exe, path, args[0], ascii_vec(n), z3.IntVal(n))
             else:
                 raise MirUnsupported('write_fmt of %r' % (p,))
         path.event('write_const', pieces)
@@ -83,7 +104,7 @@ def column_contracts():
         s = exe.deref_all(path, args[0])
         # remember the (utf8, utf16) pair at this point: a later `&s[start..]` is measured from it
         ref = args[0]
-        exe.store_at(path, ref.key, ref.proj, ostr(s.fields[0], s.fields[1], s.fields[2] + ((s.fields[0], s.fields[1]),)))
+        exe.store_at(path, ref.key, ref.proj, ostr(s.fields[3], s.fields[2] + ((s.fields[0], s.fields[3]),)))
         return [('ret', path, s.fields[0])]
 
     @reg(r"<(cssparser::)?Token<'_> as ToCss>::to_css::<String>$")
@@ -98,7 +119,7 @@ def column_contracts():
         c = z3.simplify(args[1])
         if not z3.is_int_value(c) or c.as_long() >= 128:
             raise MirUnsupported('push of non-ASCII / symbolic char')
-        append(exe, path, args[0], z3.IntVal(1), z3.IntVal(1))
+        append(exe, path, args[0], ascii_vec(1), z3.IntVal(1))
         path.event('push_char', c)
         return [('ret', path, UNIT)]
 
@@ -113,9 +134,10 @@ def column_contracts():
     def index_from(exe, path, callee, args, dst_ty):
         s = exe.deref_all(path, args[0])
         start = args[1].fields[0]
-        for (m8, m16) in s.fields[2]:
+        for (m8, mcv) in s.fields[2]:
             if z3.eq(z3.simplify(m8), z3.simplify(start)):
-                return [('ret', path, Agg('OutSlice', None, {0: s.fields[1] - m16}))]
+                cv = tuple(a - b for a, b in zip(s.fields[3], mcv))
+                return [('ret', path, Agg('OutSlice', None, {0: u16_of(cv), 1: cv}))]
         raise MirUnsupported('slice start %s is not a recorded String::len() value' % start)
 
     @reg(r'core::str::<impl str>::encode_utf16$')
@@ -128,6 +150,75 @@ def column_contracts():
         if isinstance(v, Agg) and v.name == 'OutSlice':
             return [('ret', path, v.fields[0])]
         raise MirUnsupported('utf16 count of %r' % (v,))
+
+    def slice_of(exe, path, v):
+        v = exe.deref_all(path, v)
+        if isinstance(v, Agg) and v.name in ('OutSlice', 'Bytes', 'Chars'):
+            return v
+        raise MirUnsupported('text measure of %r' % (v,))
+
+    @reg(r'core::str::<impl str>::is_ascii$')
+    def is_ascii(exe, path, callee, args, dst_ty):
+        cv = slice_of(exe, path, args[0]).fields[1]
+        return [('ret', path, z3.And(cv[1] == 0, cv[2] == 0, cv[3] == 0))]
+
+    @reg(r'core::str::<impl str>::len$')
+    def str_len(exe, path, callee, args, dst_ty):
+        return [('ret', path, u8_of(slice_of(exe, path, args[0]).fields[1]))]
+
+    @reg(r'core::str::<impl str>::bytes$|core::str::<impl str>::as_bytes$')
+    def str_bytes(exe, path, callee, args, dst_ty):
+        return [('ret', path, Agg('Bytes', None, {0: None, 1: slice_of(exe, path, args[0]).fields[1]}))]
+
+    @reg(r'core::str::<impl str>::chars$')
+    def str_chars(exe, path, callee, args, dst_ty):
+        return [('ret', path, Agg('Chars', None, {0: None, 1: slice_of(exe, path, args[0]).fields[1]}))]
+
+    @reg(r"<Chars<'_> as Iterator>::count$")
+    def chars_count(exe, path, callee, args, dst_ty):
+        cv = args[0].fields[1]
+        return [('ret', path, cv[0] + cv[1] + cv[2] + cv[3])]
+
+    @reg(r"<std::str::Bytes<'_> as Iterator>::count$|core::slice::<impl \[u8\]>::len$")
+    def bytes_count(exe, path, callee, args, dst_ty):
+        return [('ret', path, u8_of(slice_of(exe, path, args[0]).fields[1]))]
+
+    @reg(r"<std::str::Bytes<'_> as Iterator>::filter::<|<std::slice::Iter<'_, u8> as Iterator>::filter::<|<Copied<.*u8.*> as Iterator>::filter::<")
+    def bytes_filter(exe, path, callee, args, dst_ty):
+        return [('ret', path, Agg('ByteFilter', None, {0: args[0], 1: args[1]}))]
+
+    @reg(r"<Filter<.*> as Iterator>::count$")
+    def filter_count(exe, path, callee, args, dst_ty):
+        """count of the bytes of a well-formed UTF-8 text accepted by a predicate that is uniform on each byte class"""
+        flt = args[0]
+        if not (isinstance(flt, Agg) and flt.name == 'ByteFilter'):
+            raise MirUnsupported('Filter::count over %r' % (flt,))
+        cv = flt.fields[0].fields[1]
+        clo = flt.fields[1]
+        name, by_ref = contracts.closure_fn(exe, clo)
+        total = z3.IntVal(0)
+        for cname, lo, hi, howmany in BYTE_CLASSES:
+            b = z3.Int('byte_%s_%d' % (cname, path.new_fid()))
+            sub = Path()
+            sub.pc = list(path.pc) + [b >= lo, b <= hi]
+            sub.store = dict(path.store)
+            sub.nfid = path.nfid + 50
+            ck, bk = ('clo', sub.new_fid()), ('byteval', sub.new_fid())
+            sub.store[ck], sub.store[bk] = clo, b
+            done = exe.run(name, [Ref(ck) if by_ref else clo, Ref(bk)], sub)
+            verdicts = set()
+            for q in done:
+                if q.status != 'returned':
+                    raise MirUnsupported('filter predicate does not return')
+                r = z3.simplify(q.result) if isinstance(q.result, z3.ExprRef) else q.result
+                for val in (True, False):
+                    if exe.feasible(q, [r == z3.BoolVal(val)]):
+                        verdicts.add(val)
+            if len(verdicts) != 1:
+                raise MirUnsupported('filter predicate is not uniform on byte class %s' % cname)
+            if True in verdicts:
+                total = total + howmany(cv)
+        return [('ret', path, total)]
 
     @reg(r"serializer::<impl (cssparser::)?Token<'_>>::serialization_type$")
     def ser_type(exe, path, callee, args, dst_ty):
@@ -166,17 +257,18 @@ def column_target(mod, res):
     obs_total = 0
     fn_names = {'append_token': r'output::<impl .*>::append_token$', 'append_token_space_preserved': r'output::<impl .*>::append_token_space_preserved$',
                 'append_raw': r'output::<impl .*>::append_raw$'}
-    U8, U16 = z3.Int('u8_0'), z3.Int('u16_0')
+    CV0 = tuple(z3.Int('w%d_0' % (k + 1)) for k in range(4))
+    U8, U16 = u8_of(CV0), u16_of(CV0)
     prev = z3.Int('prev_ser_type')
     source_id = z3.Int('source_id')
     for which, pat in fn_names.items():
         env = sc_env.Css(lmax=1)
         tab = [(rx, f) for rx, f in env.table if 'StyleSheetOutput' not in rx]     # the appenders themselves are executed, not events
         exe = Executor(mod, column_contracts() + tab + contracts.TABLE, enums=sc_env.SC_ENUMS, max_visits=8)
-        exe.base = [U16 >= 0, U16 <= U8, U8 <= 2**30, source_id >= 0, source_id < 2**32]
+        exe.base = [c >= 0 for c in CV0] + [U8 <= 2**30, source_id >= 0, source_id < 2**32]
         p = Path()
         p.env['cpos'] = {}
-        out = {idx['s']: ostr(U8, U16), idx['prev_ser_type']: prev, idx['source_map']: Agg('SourceMapBuilder'),
+        out = {idx['s']: ostr(CV0), idx['prev_ser_type']: prev, idx['source_map']: Agg('SourceMapBuilder'),
                idx['source_id']: source_id, idx['utf16_len']: U16}
         p.store[('heap', 'out')] = Agg('StyleSheetOutput', None, out)
         env.materialize(p, 'r', 0)
@@ -265,25 +357,35 @@ def confirm_columns(res, ob, which):
     """replay: real source maps of a few sheets with multi-byte text, rewrites and separators; every entry must point
     at the output column where its token starts"""
     sheets = [('.a .b{width:75rpx;color:red}', {'class_prefix': 'p'}), ('.中  .b>c{x:calc(1rpx + 2px) a b}', {'class_prefix': '文'}),
-              ('@media (a){.x{y:z}}', {}), ('a{b:"\U0001F600" c}', {})]
+              ('@media (a){.x{y:z}}', {}), ('a{b:"\U0001F600" c}', {}), ('a{b:"é" c "\U0001F600\U0001F601" d}\n.\U0001F600{e:f}', {'class_prefix': 'p'}),
+              ('\U0001F600{x:y}', {})]
     for css, opts in sheets:
         req = [{'css': css, 'options': opts, 'source_map': True}]
         r = common.replay(['css'], stdin=json.dumps(req))
         out = json.loads(r.stdout)[0]
         text = out.get('normal', '')
         u16 = text.encode('utf-16-le')
+        src_lines = css.split('\n')
         prevc = -1
         for (dl, dc, sl, sc, name) in out.get('map', []):
-            import re as _re
             tail = u16[dc * 2:].decode('utf-16-le', errors='ignore')
-            head = u16[:dc * 2].decode('utf-16-le', errors='ignore')
-            word = r'[A-Za-z0-9_\u0080-\uffff]'
-            mid_token = bool(head) and bool(tail) and _re.match(word, head[-1]) and _re.match(word, tail[0]) and not _re.match(r'[0-9.]', head[-1])
-            bad = dl != 0 or dc < prevc or dc * 2 > len(u16) or mid_token
+            bad = dl != 0 or dc < prevc or dc * 2 > len(u16)
+            why = 'entry out of order / out of range'
             prevc = dc
+            # an entry for a token that is copied (no name = not rewritten) must point at text that starts like its source
+            if not bad and name is None and sl < len(src_lines):
+                s16 = src_lines[sl].encode('utf-16-le')
+                stail = s16[sc * 2:].decode('utf-16-le', errors='ignore')
+                if stail and tail:
+                    a, b = stail[0], tail[0]
+                    same = a == b or (b in ')}]' and re.match(r'^([\[{(]|[-\w\\\u0080-\U0010ffff]+\()', stail)) or (a in '\'"' and b in '\'"') or (a.isspace() and b.isspace()) or a.lower() == b.lower()
+                    # a class name is rewritten without a name only if no prefix is configured; numbers may be re-spelled (+1 -> 1, .5 -> 0.5)
+                    renum = (a in '+-.0123456789' and b in '+-.0123456789')
+                    if not same and not renum and not a.isspace():
+                        bad, why = True, 'source token starts with %r but the output at the generated column starts with %r' % (stail[:6], tail[:6])
             if bad:
                 res.violation({'engine': 'M', 'harness': 'columns/' + which, 'class': ob.cls},
-                              '%s: %s | sheet %r: entry (%d,%d) does not start a token in %r' % (which, ob.desc, css, dl, dc, text),
+                              '%s: %s | sheet %r: entry (%d,%d)<-(%d,%d) %s in %r' % (which, ob.desc, css, dl, dc, sl, sc, why, text),
                               {'css': css, 'options': opts})
                 return
     res.inconc('columns/%s: %s - model-level violation that does not show in the replayed source maps' % (which, ob.desc))
